@@ -29,7 +29,7 @@ use crate::{
 pub const DEF: PropDef = PropDef {
     id: "C09",
     groups,
-    rule: "request sequences (1..=200 calls) over alloc / alloc_zeroed / realloc / dealloc with valid layouts (size 0, small, 2^k, up to isize::MAX - align + 1; align 2^0..2^12), arbitrary non-null pointer arguments, scripted inner return values incl. null, executed on an established thread, on a fresh thread whose first action is the call, or inside a thread-local destructor at thread exit; \
+    rule: "request sequences (1..=200 calls) over alloc / alloc_zeroed / realloc / dealloc with valid layouts (size 0, small, 2^k, up to isize::MAX - align + 1; align 2^0..2^12), arbitrary non-null pointer arguments, scripted inner return values incl. null, executed on an established thread, on a fresh thread whose first action is the call, or inside a thread-local destructor at thread exit; the process-wide ignore-tallies flag on in a fifth of the cases; \
            non-trivial = the sequence contains a null return AND a realloc, or runs in the fresh-thread / tear-down context; distinct = distinct serialized case.",
     assumptions: &[
         "the mock inner allocator never touches memory; pointers are opaque integers",
@@ -62,6 +62,10 @@ struct Case {
     /// Tear-down context only: use the wrapper once before the thread exits.
     prime: bool,
     reqs: Vec<Req>,
+    /// The process-wide "ignore allocation tallies" flag (set by divan's own
+    /// benchmarks of the profiler) is on while the requests are issued.
+    #[serde(default)]
+    ignore_alloc: bool,
 }
 
 #[derive(Clone, Copy, Debug, PartialEq, Eq)]
@@ -231,6 +235,13 @@ thread_local! {
 }
 
 fn check_case(case: &Case) -> Verdict {
+    divan::__verif::alloc::set_ignore_alloc(case.ignore_alloc);
+    let v = check_case_inner(case);
+    divan::__verif::alloc::set_ignore_alloc(false);
+    v
+}
+
+fn check_case_inner(case: &Case) -> Verdict {
     let outcome = match case.context {
         Context::Established => {
             // The verdict must be a function of the case alone: start from an
@@ -323,21 +334,21 @@ fn groups(g: &mut Groups) {
         "established",
         60_000,
         3_000_000,
-        || proptest::collection::vec(req(), 1..=200).prop_map(|reqs| Case { context: Context::Established, prime: false, reqs }),
+        || (proptest::collection::vec(req(), 1..=200), prop::bool::weighted(0.2)).prop_map(|(reqs, ignore_alloc)| Case { context: Context::Established, prime: false, reqs, ignore_alloc }),
         check_case,
     );
     g.prop(
         "fresh_thread",
         6_000,
         200_000,
-        || proptest::collection::vec(req(), 1..=40).prop_map(|reqs| Case { context: Context::FreshThread, prime: false, reqs }),
+        || (proptest::collection::vec(req(), 1..=40), prop::bool::weighted(0.2)).prop_map(|(reqs, ignore_alloc)| Case { context: Context::FreshThread, prime: false, reqs, ignore_alloc }),
         check_case,
     );
     g.prop(
         "tls_destructor",
         6_000,
         200_000,
-        || (proptest::collection::vec(req(), 1..=40), any::<bool>()).prop_map(|(reqs, prime)| Case { context: Context::TlsDestructor, prime, reqs }),
+        || (proptest::collection::vec(req(), 1..=40), any::<bool>(), prop::bool::weighted(0.2)).prop_map(|(reqs, prime, ignore_alloc)| Case { context: Context::TlsDestructor, prime, reqs, ignore_alloc }),
         check_case,
     );
 }
